@@ -89,6 +89,8 @@ def file_case(fa, cid, raw, records, codec="null", interval=16000, level=None, m
             else:
                 fo = io.BytesIO()
                 fa.writer(fo, schema, records[:append_at], **kw)
+                if append_at % 2 == 1:
+                    fo.seek(4)             # the application looked at the magic bytes in between: appending still goes to the end
                 fa.writer(fo, schema, records[append_at:], codec=codec2, sync_interval=max(1, interval // 2), sync_marker=sync2)
                 data = fo.getvalue()
         elif kind_out == "file":
